@@ -40,14 +40,24 @@ def run(props=None, keep=False, quiet=False):
             src = os.path.join(HERE, ".work", "bin", fn)
             if os.path.exists(src):
                 shutil.copy2(src, os.path.join(work, "bin", fn))
+        work_items = []
         for prop in props:
             pdir = os.path.join(MUT, prop)
-            if not os.path.isdir(pdir):
-                continue
-            for fn in sorted(os.listdir(pdir)):
-                if not fn.endswith(".diff"):
-                    continue
-                path = os.path.join(pdir, fn)
+            if os.path.isdir(pdir):
+                for fn in sorted(os.listdir(pdir)):
+                    if fn.endswith(".diff"):
+                        work_items.append((prop, fn, os.path.join(pdir, fn)))
+            # changes seeded by independent sub-agents (/verif/seeded/<name>)
+            sdir = os.path.join(HERE, "seeded")
+            if os.path.isdir(sdir):
+                for name in sorted(os.listdir(sdir)):
+                    mp = os.path.join(sdir, name, "meta.json")
+                    pp = os.path.join(sdir, name, "patch.diff")
+                    if os.path.exists(mp) and os.path.exists(pp) and \
+                            json.load(open(mp)).get("property") == prop:
+                        work_items.append((prop, "seeded/" + name, pp))
+        if True:
+            for prop, fn, path in work_items:
                 expect = None
                 for line in open(path):
                     if line.startswith("# expect:"):
@@ -72,7 +82,15 @@ def run(props=None, keep=False, quiet=False):
                 subprocess.run(["patch", "-p1", "-R", "-s", "-d", scratch,
                                 "-i", path], capture_output=True)
                 out = r.stdout
-                if expect.startswith("violation"):
+                if expect.startswith("missed"):
+                    # documented miss: the change is outside the decided
+                    # clause; the check must stay silent (if it starts to
+                    # fire, the expectation has to be updated)
+                    ok = r.returncode == 0
+                    why = "" if ok else "exit=%d: a documented miss is now " \
+                        "reported; update the expectation. tail: %s" % (
+                            r.returncode, out[-400:])
+                elif expect.startswith("violation"):
                     want = expect[len("violation"):].strip()
                     ok = r.returncode == 1 and "VIOLATION property=" + prop \
                         in out and (not want or want in out)
